@@ -4,43 +4,49 @@
 package main
 
 import (
+	"context"
 	"encoding/json"
 	"fmt"
 	"math/big"
 	"os"
 	"strings"
+	"sync"
+	"time"
 
 	ledger "github.com/formancehq/ledger/internal"
+	"github.com/formancehq/ledger/internal/engine/utils/batching"
 	"github.com/formancehq/ledger/verifx/engx"
 	"github.com/formancehq/ledger/verifx/vx"
 )
 
 // Scenario: a history executed sequentially first (setup), then concurrent requests explored under schedules.
 type Scenario struct {
-	Name   string     `json:"name"`
-	Setup  []engx.Req `json:"setup"`
-	Reqs   []engx.Req `json:"reqs"`
-	Fail   bool       `json:"allow_store_failure,omitempty"`
-	Crash  bool       `json:"allow_crash,omitempty"`
-	Cancel bool       `json:"allow_cancel,omitempty"`
-	FailCtx bool      `json:"allow_store_failure_ctx_canceled,omitempty"`
-	Budget int        `json:"budget,omitempty"`
+	Name    string     `json:"name"`
+	Setup   []engx.Req `json:"setup"`
+	Reqs    []engx.Req `json:"reqs"`
+	Fail    bool       `json:"allow_store_failure,omitempty"`
+	Crash   bool       `json:"allow_crash,omitempty"`
+	Cancel  bool       `json:"allow_cancel,omitempty"`
+	FailCtx bool       `json:"allow_store_failure_ctx_canceled,omitempty"`
+	Budget  int        `json:"budget,omitempty"`
 }
 
 type Exec struct {
-	Schedule  []int            `json:"schedule"`
-	Counts    []int            `json:"-"`
-	Choices   []string         `json:"choices"`
-	Responses []engx.Response  `json:"responses"`
-	Trace     []engx.Event     `json:"trace,omitempty"`
-	Disk      []*ledger.ChainedLog `json:"-"`
-	Batches   [][]*ledger.ChainedLog `json:"-"`
-	Published []engx.Published `json:"-"`
-	Fault     string           `json:"fault,omitempty"`
-	Stuck     bool             `json:"stuck,omitempty"`
-	SetupLen  int              `json:"setup_len"`
-	SetupChoices []engx.Choice  `json:"-"`
-	MainChoices  []engx.Choice  `json:"-"`
+	Schedule     []int                  `json:"schedule"`
+	Counts       []int                  `json:"-"`
+	Choices      []string               `json:"choices"`
+	Responses    []engx.Response        `json:"responses"`
+	Trace        []engx.Event           `json:"trace,omitempty"`
+	Disk         []*ledger.ChainedLog   `json:"-"`
+	Batches      [][]*ledger.ChainedLog `json:"-"`
+	Published    []engx.Published       `json:"-"`
+	Fault        string                 `json:"fault,omitempty"`
+	LostAck      int                    `json:"lost_ack"`
+	LostAckSet   bool                   `json:"lost_ack_set,omitempty"`
+	Stuck        bool                   `json:"stuck,omitempty"`
+	SetupLen     int                    `json:"setup_len"`
+	SetupChoices []engx.Choice          `json:"-"`
+	MainChoices  []engx.Choice          `json:"-"`
 }
 
 func send(amount int, src, dst string) string {
@@ -103,6 +109,7 @@ func run(sc Scenario, prefix []int, keepTrace bool) Exec {
 	}
 	ex.Stuck = s.Stuck()
 	ex.Fault = s.Fault
+	ex.LostAck, ex.LostAckSet = s.LostAck, s.LostAckSet
 	ex.Responses = s.Responses()
 	ex.Disk = append([]*ledger.ChainedLog{}, disk.Logs...)
 	ex.Batches = disk.Batches
@@ -625,6 +632,12 @@ func scenarios() []Scenario {
 			Reqs: []engx.Req{ik(engx.Req{Kind: "revert", RevertID: 2}, "k9")}, Budget: 10},
 		{Name: "ik-reuse-across-kinds", Setup: []engx.Req{fund("alice", 100), ik(xfer(10, "alice", "bob"), "k6"), ik(metaA, "k8")},
 			Reqs: []engx.Req{ik(metaA, "k6"), ik(engx.Req{Kind: "delmeta", Target: "ACCOUNT", TargetID: "alice", Key: "a"}, "k6"), ik(xfer(1, "alice", "bob"), "k8")}, Budget: 60},
+		{Name: "same-reference-one-with-ik", Setup: []engx.Req{fund("alice", 300)}, Reqs: []engx.Req{
+			ref(xfer(10, "alice", "bob"), "r5"), ik(ref(xfer(20, "alice", "carol"), "r5"), "k10")}},
+		{Name: "reference-after-revert", Setup: []engx.Req{fund("alice", 300), ref(xfer(10, "alice", "bob"), "r6"), engx.Req{Kind: "revert", RevertID: 1}},
+			Reqs: []engx.Req{ref(xfer(20, "alice", "carol"), "r6")}, Budget: 10},
+		{Name: "restart-after-revert", Setup: []engx.Req{fund("alice", 300), xfer(10, "alice", "bob"), xfer(20, "alice", "bob"), engx.Req{Kind: "revert", RevertID: 1}},
+			Reqs: []engx.Req{xfer(1, "alice", "carol"), xfer(2, "alice", "carol")}, Budget: 60},
 		{Name: "three-same-ik", Setup: []engx.Req{fund("alice", 300)}, Budget: 500, Reqs: []engx.Req{
 			ik(xfer(10, "alice", "bob"), "k7"), ik(xfer(10, "alice", "bob"), "k7"), ik(xfer(10, "alice", "bob"), "k7")}},
 		{Name: "three-same-reference", Setup: []engx.Req{fund("alice", 300)}, Budget: 500, Reqs: []engx.Req{
@@ -970,6 +983,104 @@ func previewDifferential(r *vx.Run, n int) {
 	}
 }
 
+// ---- the batcher alone, with a small maximal batch size ----------------------------------------------------
+// The Commander fixes the batch size at 4096, which no scenario reaches; the cut of an over-long queue is exercised
+// here on the real batching.Batcher with sizes 1..4: n items are appended while the first batch is held in the
+// runner; every item must reach the runner exactly once, in order, and its callback must fire exactly once, after
+// the batch that carries it returned.
+func batcherDirect(r *vx.Run) {
+	for maxBatch := 1; maxBatch <= 4; maxBatch++ {
+		for n := 1; n <= 9; n++ {
+			var mu sync.Mutex
+			var batches [][]int
+			returned := map[int]bool{}
+			cbCount := map[int]int{}
+			early := ""
+			gate := make(chan struct{})
+			b := batching.NewBatcher[int](func(ctx context.Context, items ...int) error {
+				mu.Lock()
+				batches = append(batches, append([]int{}, items...))
+				mu.Unlock()
+				<-gate
+				mu.Lock()
+				for _, it := range items {
+					returned[it] = true
+				}
+				mu.Unlock()
+				return nil
+			}, 1, maxBatch)
+			ctx, cancel := context.WithCancel(context.Background())
+			go func() {
+				defer func() { _ = recover() }()
+				b.Run(ctx)
+			}()
+			for i := 1; i <= n; i++ {
+				i := i
+				b.Append(i, func() {
+					mu.Lock()
+					cbCount[i]++
+					if !returned[i] {
+						early = fmt.Sprintf("callback of item %d fired before the batch carrying it returned", i)
+					}
+					mu.Unlock()
+				})
+			}
+			deadline := time.Now().Add(2 * time.Second)
+			for time.Now().Before(deadline) {
+				select {
+				case gate <- struct{}{}:
+				default:
+					time.Sleep(200 * time.Microsecond)
+				}
+				mu.Lock()
+				done := 0
+				for i := 1; i <= n; i++ {
+					if cbCount[i] > 0 {
+						done++
+					}
+				}
+				mu.Unlock()
+				if done == n {
+					break
+				}
+			}
+			time.Sleep(2 * time.Millisecond)
+			cancel()
+			mu.Lock()
+			var flat []int
+			for _, bt := range batches {
+				flat = append(flat, bt...)
+			}
+			in := map[string]any{"max_batch_size": maxBatch, "items": n, "batches": batches}
+			good := len(flat) == n
+			for i := range flat {
+				good = good && flat[i] == i+1
+			}
+			if !good {
+				r.FailP("C05", "batcher:entries-not-delivered-exactly-once-in-order", in, fmt.Sprintf("runner received %v", batches), n)
+				r.FailP("C06", "batcher:entries-not-delivered-exactly-once-in-order", in, fmt.Sprintf("runner received %v", batches), n)
+			}
+			for i := 1; i <= n; i++ {
+				if cbCount[i] != 1 {
+					r.FailP("C06", "batcher:completion-callback-not-fired-exactly-once", in, fmt.Sprintf("callback of item %d fired %d times", i, cbCount[i]), n)
+					break
+				}
+			}
+			if early != "" {
+				r.FailP("C06", "batcher:acknowledged-before-persisted", in, early, n)
+			}
+			for _, bt := range batches {
+				if len(bt) > maxBatch {
+					r.FailP("C05", "batcher:batch-larger-than-maximum", in, fmt.Sprint(bt), n)
+				}
+			}
+			mu.Unlock()
+			r.Count("batcher-direct")
+			r.Case("", in, fmt.Sprint("batcher", maxBatch, n), n > maxBatch)
+		}
+	}
+}
+
 func main() {
 	r := vx.Start("C02", "engine")
 	r.Cases("From FL Require Import Engine.Corr.\nClose Scope Z_scope.\nOpen Scope nat_scope.\n", "ecase", 120)
@@ -1013,6 +1124,15 @@ func main() {
 		explore := func(prefix []int) Exec {
 			ex := run(sc, prefix, false)
 			n++
+			if ex.Fault != "" && ex.LostAckSet {
+				// not a scheduling artefact: the request's entry is on disk, it was resumed, and it never returned.
+				// Re-execute once before reporting.
+				again := run(sc, ex.Schedule, false)
+				if again.LostAckSet {
+					r.FailP("C06", "persisted-write-never-answered:"+sc.Reqs[ex.LostAck].Kind, map[string]any{"scenario": sc, "schedule": ex.Schedule, "choices": ex.Choices},
+						fmt.Sprintf("request %d: its log entry is persisted, yet the request never gets its persistence signal (reproduced on re-execution)", ex.LostAck), len(ex.Schedule))
+				}
+			}
 			if ex.Fault != "" {
 				faults++
 				r.Count("harness-fault")
@@ -1048,7 +1168,7 @@ func main() {
 			return ex
 		}
 		// depth-first over the observed branching factors (stateless search by re-execution)
-		for n < b {
+		for n < b && faults < 6 {
 			ex := explore(prefix)
 			prefix = next(ex.Schedule, ex.Counts)
 			if prefix == nil {
@@ -1058,7 +1178,7 @@ func main() {
 		}
 		// budget exhausted: seeded random schedules on top
 		if !exhaustive {
-			for k := 0; k < b/2; k++ {
+			for k := 0; k < b/2 && faults < 6; k++ {
 				rp := make([]int, 80)
 				for i := range rp {
 					rp[i] = g.Intn(5)
@@ -1067,6 +1187,9 @@ func main() {
 			}
 		}
 		r.Sum.Notes = append(r.Sum.Notes, fmt.Sprintf("%s: %d schedules, %d harness faults, exhaustive=%v", sc.Name, n, faults, exhaustive))
+	}
+	if only == "" || only == "batcher-direct" {
+		batcherDirect(r)
 	}
 	if only == "" || only == "preview-differential" {
 		n := 120
